@@ -250,6 +250,66 @@ example : ∃ s : Mesh Pt Int,
     withFlags true s.vertices s.indices (fl 19) = .ok s :=
   ⟨_, rfl, by decide, rfl⟩
 
+/-! ### what the pinned code does preserve -/
+
+/-- **as written**, `set_flags` preserves coherence whenever (1) it adds none of the merging flags, (2) the topology
+computation it triggers deletes no triangle, and (3) it does not rely on `DELETE_BAD_TOPOLOGY_TRIANGLES` alone to keep a
+topology that was already there.  (Each hypothesis is necessary: witnesses (a)/(c)/(g), (d), (e) above.) -/
+theorem setFlagsW_coherent_partial (dim3 : Bool) (s s' : Mesh V N) (f : Flags) (r : Option TopoErr)
+    (hc : Coherent dim3 s)
+    (h1 : (f.diff s.flags).mergeFamily = false)
+    (h2 : f.delBad = true → f.het = true ∨ s.flags.delBad = false)
+    (h3 : (f.diff s.flags).topoFamily = true → f.delBad = true → deleteBad s.indices = s.indices)
+    (h : setFlagsW dim3 s f = some (s', r)) : Coherent dim3 s' :=
+  setFlagsW_coherent_partial' hc h1 h2 h3 h
+
+/-- non-vacuity: a cube-corner fan, no flag, then `HALF_EDGE_TOPOLOGY | CONNECTED_COMPONENTS | ORIENTED` (11) -/
+example : ∃ s : Mesh Pt Int, ∃ s' r,
+    withFlagsW true [(0,0),(1,0),(0,1),(1,1)] [⟨0,1,2⟩, ⟨1,3,2⟩] (fl 0) = .ok s ∧
+    ((fl 11).diff s.flags).mergeFamily = false ∧ (fl 11).delBad = false ∧
+    setFlagsW true s (fl 11) = some (s', r) ∧ s'.topology.isSome = true ∧ s'.cc.isSome = true ∧ s'.pn.isSome = true :=
+  ⟨_, _, _, rfl, by decide, by decide, rfl, by decide, by decide, by decide⟩
+
+/-- **as written**, `reverse` preserves coherence when there are no pseudo-normals, no topology kept through
+`DELETE_BAD_TOPOLOGY_TRIANGLES` alone, and the topology computation does not newly fail on the reversed buffer.
+(Necessary: witnesses (b), (f).) -/
+theorem reverseW_coherent_partial (dim3 : Bool) (s s' : Mesh V N)
+    (hc : Coherent dim3 s)
+    (hp : dim3 = true → s.flags.pnFamily = false)
+    (hb : s.flags.delBad = true → s.flags.het = true)
+    (hsym : topoOf s.vertices.length (revIdx s.indices) = none → topoOf s.vertices.length s.indices = none)
+    (h : reverseW dim3 s = some s') : Coherent dim3 s' :=
+  reverseW_coherent_partial' hc hp hb hsym h
+
+example : ∃ s : Mesh Pt Int, ∃ s',
+    withFlagsW true [(0,0),(1,0),(0,1),(1,1)] [⟨0,1,2⟩, ⟨1,3,2⟩] (fl 3) = .ok s ∧
+    s.flags.pnFamily = false ∧ s.flags.delBad = false ∧
+    (topoOf s.vertices.length (revIdx s.indices)).isSome = true ∧
+    reverseW true s = some s' ∧ s'.topology.isSome = true ∧ s'.topology ≠ s.topology :=
+  ⟨_, _, rfl, by decide, by decide, by decide, rfl, by decide, by decide⟩
+
+/-! ## facts about the individual computations -/
+
+/-- `delete_bad_topology_triangles` is idempotent -/
+theorem deleteBad_idempotent (idx : List Tri) : deleteBad (deleteBad idx) = deleteBad idx :=
+  deleteBad_idem idx
+
+/-- `DELETE_BAD_TOPOLOGY_TRIANGLES` does what its name says: on the index buffer it leaves, `compute_topology` never
+returns a `TopologyError` (whatever the input: degenerate, duplicated, non-manifold, wrongly oriented triangles) -/
+theorem deleteBad_topology_never_fails (nv : Nat) (idx : List Tri) (e : TopoErr) :
+    computeTopology nv (deleteBad idx) ≠ .err e :=
+  computeTopology_deleteBad_no_err nv idx e
+
+/-- `compute_connected_components` does not see the orientation of the triangles (the claim in the comment of
+`reverse`) -/
+theorem connectedComponents_reverse (nv : Nat) (idx : List Tri) : computeCC nv (revIdx idx) = computeCC nv idx :=
+  computeCC_rev nv idx
+
+/-- pseudo-normals of the reversed mesh: negated, **with edge slots 1 and 2 exchanged** (exact geometry) -/
+theorem pseudoNormals_reverse [LawfulGeo V N] (vs : List V) (idx : List Tri) :
+    (computePN vs (revIdx idx) : Option (PN N)) = (computePN vs idx).map (negPN (V := V) · true) :=
+  computePN_rev vs idx
+
 /-- the same seven histories with the fixed operations end in coherent states (instances of `history_coherent`) -/
 example : ∃ s : Mesh Pt Int,
     hist true [(0,0),(1,0),(0,1), (5,0),(6,0),(5,1), (9,0),(9,0),(9,1)] [⟨0,1,2⟩, ⟨3,4,5⟩, ⟨6,7,8⟩] (fl 2)
